@@ -313,6 +313,38 @@ pub fn walk<'a>(e: &'a E, f: &mut dyn FnMut(&'a E)) {
     }
 }
 
+/// rewrite every node in place (children first)
+pub fn rewrite(e: &mut E, f: &mut dyn FnMut(&mut E)) {
+    match e {
+        E::Arr(v) | E::Block(v) => v.iter_mut().for_each(|x| rewrite(x, f)),
+        E::Obj(m) => m.iter_mut().for_each(|(_, x)| rewrite(x, f)),
+        E::Bin(_, a, b) => {
+            rewrite(a, f);
+            rewrite(b, f);
+        }
+        E::Not(a) | E::Return(a) | E::Assign(_, a) | E::Cont(a, _) => rewrite(a, f),
+        E::AssignInf { e, .. } => rewrite(e, f),
+        E::If { arms, els } => {
+            for (p, b) in arms {
+                p.iter_mut().for_each(|x| rewrite(x, f));
+                b.iter_mut().for_each(|x| rewrite(x, f));
+            }
+            if let Some(b) = els {
+                b.iter_mut().for_each(|x| rewrite(x, f));
+            }
+        }
+        E::Abort(Some(m)) => rewrite(m, f),
+        E::Call { args, closure, .. } => {
+            args.iter_mut().for_each(|(_, x)| rewrite(x, f));
+            if let Some((_, b)) = closure {
+                b.iter_mut().for_each(|x| rewrite(x, f));
+            }
+        }
+        _ => {}
+    }
+    f(e);
+}
+
 pub fn any_node(p: &[E], pred: &dyn Fn(&E) -> bool) -> bool {
     let mut found = false;
     for s in p {
